@@ -323,4 +323,60 @@ theorem user_succ (n : Nat) (ih : AllSpec n) (name : String) (k : Nat) (s s' : S
           · show cellOf (some v) :: s3.data.map cellOf = _
             rw [cellOf_plain (vok_plain hv), hk.same.data, hdrop]
 
+/-! ## `exec` -/
+
+theorem exec_succ (n : Nat) (ih : AllSpec n) (b : Base) (s s' : St) (top : Act) (rest : List Act) (i : Instr) (hw : WF s)
+    (hr : Running b s top rest) (hf : (fnOf s s.curfunc).code[s.pc.toNat]? = some i)
+    (hex : (exec (n + 1) i).run s = (.ok (), s')) :
+    WF s' ∧ TExt s s' ∧ Live b s' ∧ s'.suspended = s.suspended := by
+  have simple : isCall i = false → WF s' ∧ TExt s s' ∧ Live b s' ∧ s'.suspended = s.suspended := by
+    intro hs
+    have r := exec_simple_ok n b s s' top rest i hw hr hf hs hex
+    exact ⟨r.wf, r.ext, Or.inl ⟨top, rest, r.run⟩, r.susp⟩
+  cases i with
+  | callArr k => exact exec_callArr_ok n ih b s s' top rest k hw hr hf hex
+  | ret => exact exec_ret_ok n b s s' top rest hw hr hf hex
+  | callExpr c args =>
+    have hio := hr.instrOK hf
+    simp only [instrOK, Bool.and_eq_true] at hio
+    simp only [exec] at hex
+    rw [run_bind] at hex
+    rcases hev : (evalCallExpr n c).run s with ⟨r, s1⟩
+    rw [hev] at hex
+    cases r with
+    | error e => cases hex
+    | ok f =>
+      dsimp only at hex
+      obtain ⟨hk, hv⟩ := ih.eval c s s1 f hw hio.1 hev
+      have hr1 := hr.kept hk
+      have hf1 : (fnOf s1 s1.curfunc).code[s1.pc.toNat]? = some (.callExpr c args) := by
+        rw [hk.same.cur, hk.same.pc, hr.cur, hk.ext.fnOf top.f hr.ok.idx, ← hr.cur]
+        exact hf
+      obtain ⟨h1, h2, h3, h4⟩ := ih.resolved b s1 s' top rest f c args hk.wf hr1 hf1 hv hio.2 hex
+      exact ⟨h1, hk.ext.trans h2, h3, h4.trans hk.same.susp⟩
+  | push v => exact simple rfl
+  | pop => exact simple rfl
+  | dup => exact simple rfl
+  | envToStack x => exact simple rfl
+  | popStackPutEnv x => exact simple rfl
+  | update x => exact simple rfl
+  | jump off => exact simple rfl
+  | goto loc => exact simple rfl
+  | branch d off => exact simple rfl
+  | addScope => exact simple rfl
+  | addFuncScope t => exact simple rfl
+  | removeScope => exact simple rfl
+  | createClosure t => exact simple rfl
+  | prepareCall x k => exact simple rfl
+  | tailGuard x k => exact simple rfl
+  | pushLazy e => exact simple rfl
+  | loopStart l => exact simple rfl
+  | label => exact simple rfl
+  | pushMark l => exact simple rfl
+  | popUntilMark l => exact simple rfl
+  | clearMark l => exact simple rfl
+  | brk l k => exact simple rfl
+  | cont l k => exact simple rfl
+  | assign => exact simple rfl
+
 end ZygoVerif.RunInv
